@@ -317,8 +317,9 @@ partial def loop (hin : IO.FS.Stream) (hout : IO.FS.Stream) (gw : Option (Resgat
     let snap := ws.getD 3 "0" == "1"
     let ord := (ws.getD 4 "0").toNat?.getD 0
     let flat := ws.getD 5 "0" == "1"
+    let hauth := ws.getD 6 "0" == "1"
     hout.putStrLn "ok"
-    loop hin hout (some ({ refThrottle := ref, resetThrottle := rst, ord := ord, flat := flat }, snap))
+    loop hin hout (some ({ refThrottle := ref, resetThrottle := rst, ord := ord, flat := flat, hauth := hauth }, snap))
   else if l == "gw-end" then
     hout.putStrLn "ok"
     loop hin hout none
